@@ -53,7 +53,8 @@ MAL = ['none', 'non-trashinfo-file', 'empty-info', 'truncated', 'binary', 'non-u
 NMAL = len(MAL)
 ORDER = ['insertion', 'reverse']
 TDS = ['/v/.Trash-1000', '/h/.local/share/Trash', '/v/.Trash/1000']
-CMDS = ['list', 'restore-date', 'restore-path', 'restore-none', 'rm', 'empty-days', 'empty', 'rm-abs']
+CMDS = ['list', 'restore-date', 'restore-path', 'restore-none', 'rm', 'empty-days', 'empty', 'rm-abs', 'list-size', 'list-files']
+NCMD = len(CMDS)
 
 
 def mal_nodes(mk, td):
@@ -147,6 +148,10 @@ def run_one(mk, order, tdi, cmd, with_mal):
     e = scen.env()
     if c == 'list':
         step = C('list', [], e, cwd=base)
+    elif c == 'list-size':
+        step = C('list', ['--size'], e, cwd=base)
+    elif c == 'list-files':
+        step = C('list', ['--files'], e, cwd=base)
     elif c.startswith('restore'):
         # phase 1: listing only; phase 2 (below) picks the index of the well-formed directory entry by its path
         probe = W.build_model(world)
@@ -202,6 +207,14 @@ def _case(mk, order, tdi, cmd):
                 return rt.fail('C19:well-formed-entry-not-restored:' + label, 'stderr %r' % (r1['err'][-300:],))
             if l0 != l1:
                 return rt.fail('C19:restore-offers-differ:' + label, '%r vs %r' % (l0, l1))
+        elif c in ('list-size', 'list-files'):
+            # (a neighbour recorded under the same path as a good entry prints a line the restriction cannot tell apart:
+            #  every line about a well-formed entry must still be there, as many times)
+            l1 = restrict_lines(r1['out'])
+            for ln in restrict_lines(r0['out']):
+                if ln not in l1:
+                    return rt.fail('C19:output-differs:' + label, '%r vs %r' % (restrict_lines(r0['out']), restrict_lines(r1['out'])))
+                l1.remove(ln)
         elif restrict_lines(r0['out']) != restrict_lines(r1['out']):
             return rt.fail('C19:output-differs:' + label, '%r vs %r' % (restrict_lines(r0['out']), restrict_lines(r1['out'])))
         if (r0['exit'] or 0) == 0 and (r1['exit'] or 0) != 0 and not c.startswith('restore'):
@@ -212,10 +225,10 @@ def _case(mk, order, tdi, cmd):
 def w_main(mk: int, order: int, tdi: int, cmd: int) -> str:
     """
     pre: PARTITION is None or cmd == PARTITION
-    pre: 0 <= mk < NMAL and 0 <= order < 2 and 0 <= tdi < 3 and 0 <= cmd < 8
+    pre: 0 <= mk < NMAL and 0 <= order < 2 and 0 <= tdi < 3 and 0 <= cmd < NCMD
     post: _ == ''
     """
-    return _case(rt.sel(mk, NMAL), rt.sel(order, 2), rt.sel(tdi, 3), rt.sel(cmd, 8))
+    return _case(rt.sel(mk, NMAL), rt.sel(order, 2), rt.sel(tdi, 3), rt.sel(cmd, NCMD))
 
 
 def obligations(tier):
@@ -223,7 +236,7 @@ def obligations(tier):
     return kpair.obligations(tier) + [
         CH('K_sort_with_undated_entries', MOD, 'k_sort', timeout=120, engine='K', regime='traced',
            encodes=['trashcli.restore.sort_method.sort_files', 'sorter_for'], bounds='3 entries, symbolic presence of each date, symbolic sharing of original paths, 3 sort modes'),
-        CH('W_neighbour_x_order_x_dir_x_cmd', MOD, 'w_main', timeout=900, partitions=list(range(8)), engine='W', regime='selector',
+        CH('W_neighbour_x_order_x_dir_x_cmd', MOD, 'w_main', timeout=900, partitions=list(range(NCMD)), engine='W', regime='selector',
            encodes=K.LIST_FUNCS + K.RESTORE_FUNCS + K.RM_FUNCS + K.EMPTY_FUNCS, stubs=K.STUBS,
-           bounds='29 neighbours x 2 directory orders x 3 trash dirs x 8 command/argument combinations'),
+           bounds='29 neighbours x 2 directory orders x 3 trash dirs x 10 command/argument combinations (incl. trash-list --size / --files)'),
     ]
